@@ -44,7 +44,14 @@ BIN = {ast.Add: operator.add, ast.Sub: operator.sub, ast.Mult: operator.mul, ast
 CMP = {ast.Eq: operator.eq, ast.NotEq: operator.ne, ast.Lt: operator.lt, ast.LtE: operator.le, ast.Gt: operator.gt, ast.GtE: operator.ge,
        ast.In: lambda a, b: a in b, ast.NotIn: lambda a, b: a not in b, ast.Is: operator.is_, ast.IsNot: operator.is_not}
 PYEXC = (IndexError, KeyError, AttributeError, ValueError, TypeError, ZeroDivisionError, StopIteration)
-FUNCS = {"str": str, "dict": dict, "os.path.splitext": os.path.splitext, "splitext": os.path.splitext, "os.path.basename": os.path.basename,
+def _setattr(o, k, v):
+    if isinstance(o, types.SimpleNamespace):
+        setattr(o, k, v)
+        return None
+    raise Unknown("setattr on %r" % type(o).__name__)
+
+
+FUNCS = {"float": float, "setattr": _setattr, "str": str, "dict": dict, "os.path.splitext": os.path.splitext, "splitext": os.path.splitext, "os.path.basename": os.path.basename,
          "isinstance": isinstance, "hasattr": hasattr, "getattr": getattr, "repr": repr, "next": next, "iter": iter,
          "len": len, "abs": abs, "range": range, "list": list, "tuple": tuple, "sorted": sorted, "sum": sum, "min": min, "max": max,
          "zip": zip, "enumerate": enumerate, "int": int, "bool": bool, "any": any, "all": all, "reversed": reversed, "set": set,
@@ -61,6 +68,34 @@ def _name(n):
     return " ".join(ast.unparse(n).split())
 
 
+class Opaque:
+    """an object the fragment only creates, configures and passes around (a parser, a formula): every attribute is opaque, every call
+    returns an opaque value; comparing or computing with it is not folded"""
+
+    def __init__(self, what="object"):
+        object.__setattr__(self, "_what", what)
+
+    def __getattr__(self, name):
+        return Opaque("%s.%s" % (self._what, name))
+
+    def __setattr__(self, name, value):
+        pass
+
+    def __call__(self, *a, **k):
+        return Opaque("%s()" % self._what)
+
+    def __repr__(self):
+        return "<opaque %s>" % self._what
+
+    def __bool__(self):
+        raise Unknown("truth value of an opaque object")
+
+    def __eq__(self, other):
+        raise Unknown("comparison of an opaque object")
+
+    __hash__ = None
+
+
 class Folder:
     """evaluates expressions / runs statement lists over ints, bools, None, lists and tuples; calls of `sinks` (method names on any
     receiver, e.g. add_clause) are recorded with a copy of their positional arguments instead of being executed"""
@@ -71,6 +106,9 @@ class Folder:
         self.effects = []
         self.helpers = dict(helpers or {})       # name -> ast.FunctionDef of pure local / module-level helpers
         self.methods = dict(methods or {})       # name -> ast.FunctionDef of methods reachable as self.<name>(..)
+        self.opaque_constructors = False
+        self.globals = {}                        # names visible in every folded function (module-level bindings supplied by the rule)
+        self.module_functions = {}               # name -> ast.FunctionDef of module-level functions that may be folded when called         # CapitalisedName(..) of an unknown class gives an Opaque object
         self.fuel = fuel
 
     def call_function(self, d, args, kw):
@@ -116,10 +154,14 @@ class Folder:
         if isinstance(e, ast.Name):
             if e.id in self.env:
                 return self.env[e.id]
+            if e.id in self.globals:
+                return self.globals[e.id]
             if e.id in ("True", "False", "None"):
                 return {"True": True, "False": False, "None": None}[e.id]
             if e.id in FUNCS:
                 return FUNCS[e.id]
+            if self.opaque_constructors and e.id[:1].isupper():
+                return Opaque(e.id)
             if e.id in ("int", "float", "list", "tuple", "dict", "set", "bool", "str", "type"):
                 return {"int": int, "float": float, "list": list, "tuple": tuple, "dict": dict, "set": set, "bool": bool, "str": str, "type": type}[e.id]
             raise Unknown("free name %s" % e.id)
@@ -189,17 +231,39 @@ class Folder:
                 raise Unknown("subscript: %s" % x)
         if isinstance(e, ast.Attribute):
             v = self.ev(e.value)
+            if isinstance(v, Opaque):
+                return getattr(v, e.attr)
             if isinstance(v, types.SimpleNamespace):
                 if hasattr(v, e.attr):
                     return getattr(v, e.attr)
                 raise Raised("AttributeError")
             if isinstance(v, (str, int, list, tuple, dict)) and not hasattr(v, e.attr):
                 raise Raised("AttributeError")
+            if type(v).__module__ != "builtins":
+                if hasattr(v, e.attr):
+                    return getattr(v, e.attr)
+                raise Raised("AttributeError")
             raise Unknown("attribute %s" % _name(e))
         if isinstance(e, ast.Dict):
             return {self.ev(k): self.ev(v) for k, v in zip(e.keys, e.values) if k is not None}
         if isinstance(e, ast.JoinedStr):
             raise Unknown("f-string")
+        if isinstance(e, ast.DictComp):
+            out = {}
+            saved = dict(self.env)
+
+            def recd(i):
+                if i == len(e.generators):
+                    out[self.ev(e.key)] = self.ev(e.value)
+                    return
+                g = e.generators[i]
+                for item in self.ev(g.iter):
+                    self.assign(g.target, item)
+                    if all(self.ev(c) for c in g.ifs):
+                        recd(i + 1)
+            recd(0)
+            self.env = saved
+            return out
         if isinstance(e, (ast.ListComp, ast.GeneratorExp, ast.SetComp)):
             out = []
             saved = dict(self.env)
@@ -238,9 +302,8 @@ class Folder:
             return None
         if isinstance(c.func, ast.Attribute) and _name(c.func.value) == "self" and c.func.attr in self.methods:
             return self.call_function(self.methods[c.func.attr], [self.env.get("self")] + args, kw)
-        if isinstance(c.func, ast.Name) and c.func.id in self.helpers and not isinstance(self.helpers[c.func.id], ast.FunctionDef.__mro__[0] if False else type(None)) \
-                and getattr(self.helpers[c.func.id], "_module_level", False):
-            return self.call_function(self.helpers[c.func.id], args, kw)
+        if isinstance(c.func, ast.Name) and c.func.id in self.module_functions and c.func.id not in self.env:
+            return self.call_function(self.module_functions[c.func.id], args, kw)
         if isinstance(c.func, ast.Name) and c.func.id in self.helpers:
             d = self.helpers[c.func.id]
             saved = dict(self.env)
@@ -261,6 +324,13 @@ class Folder:
                 else:
                     self.env[k] = v
             return ret
+        if isinstance(c.func, ast.Name) and (c.func.id in self.env or c.func.id in self.globals):
+            target = self.env.get(c.func.id, self.globals.get(c.func.id))
+            if callable(target) and not isinstance(target, type(len)):
+                try:
+                    return target(*args, **kw)                     # a stand-in supplied by the rule
+                except PYEXC as x:
+                    raise Raised(type(x).__name__)
         if fn in ("reduce", "functools.reduce") and len(args) >= 2:
             try:
                 return reduce(args[0], args[1], *args[2:3])
@@ -275,11 +345,18 @@ class Folder:
                 raise Raised(type(x).__name__)
             return list(v) if fn in ("zip", "enumerate", "reversed", "combinations", "itertools.combinations", "permutations", "product",
                                      "itertools.product", "range") and not isinstance(v, range) else v
+        if isinstance(c.func, ast.Name) and c.func.id[:1].isupper() and c.func.id not in self.env and self.opaque_constructors:
+            return Opaque(c.func.id)
         if isinstance(c.func, ast.Attribute):
             recv = self.ev(c.func.value)
             m = c.func.attr
-            if isinstance(recv, types.SimpleNamespace) and callable(getattr(recv, m, None)):
-                return getattr(recv, m)(*args, **kw)
+            if isinstance(recv, Opaque):
+                return Opaque("%s.%s()" % (recv._what, m))
+            if (isinstance(recv, types.SimpleNamespace) or type(recv).__module__ != "builtins") and callable(getattr(recv, m, None)):
+                try:
+                    return getattr(recv, m)(*args, **kw)          # an object supplied by the rule itself (a stand-in for a parser, a graph ..)
+                except PYEXC as x:
+                    raise Raised(type(x).__name__)
             if m in METHODS and isinstance(recv, (list, tuple, int, str, dict)) and hasattr(recv, m):
                 try:
                     v = getattr(recv, m)(*args, **kw)
@@ -312,6 +389,16 @@ class Folder:
                 raise Raised("ValueError")
             for t, v in zip(target.elts, vals):
                 self.assign(t, v)
+        elif isinstance(target, ast.Attribute):
+            obj = self.ev(target.value)
+            if isinstance(obj, types.SimpleNamespace):
+                setattr(obj, target.attr, value)
+            elif isinstance(obj, Opaque):
+                pass
+            elif type(obj).__module__ != "builtins":
+                setattr(obj, target.attr, value)
+            else:
+                raise Unknown("attribute assignment on %s" % type(obj).__name__)
         elif isinstance(target, ast.Subscript):
             obj = self.ev(target.value)
             if not isinstance(obj, list):
@@ -406,7 +493,8 @@ class Folder:
             elif isinstance(s, ast.FunctionDef):
                 self.helpers[s.name] = s
             elif isinstance(s, ast.Assert):
-                pass
+                if not self.ev(s.test):
+                    raise Raised("AssertionError")
             else:
                 raise Unknown("statement %s" % type(s).__name__)
 
